@@ -1,5 +1,6 @@
 """C12 - HTM matching returns exactly the pairs within the search radius (E1 + E2)."""
 import functools
+import itertools
 import os
 import random
 
@@ -20,8 +21,10 @@ RULE = (
     "2e-7/1e-4/0.01/1 deg in 3 bearings around 10 centres), 14 fixed sub-selections of S (bases, destinations, "
     "even/odd, polar, seam, hemispheres, head/tail, one point, one point repeated, reversed, scrambled) and 5 "
     "spread-out sets (96-point quasi-uniform sphere, caps of 30 / 1 (across ra=0) / 0.01 (north pole) / 1e-4 deg); "
+    "element sequences: every first-set sequence of length <= 3 (4) over {A, A repeated, B near A, far C} x per-point "
+    "radius {0, 0.1, 1} (state carried from one element to the next inside the match loops); "
     "set pairs (self-matches, S against/with each selection, disjoint far-apart pairs, and byte-swapped, "
-    "strided, negative-stride, list/int and scalar inputs) x radius alphabet + per-point radius arrays x depth x "
+    "strided, negative-stride, 2-d, list/int and scalar inputs) x radius alphabet + per-point radius arrays x depth x "
     "maxmatch {-1,0,1,2,3,1000}; every case runs FOUR routes (HTM.match, Matcher.match, each in memory and "
     "through file= + read_pairs) and checks each against the brute-force answer, the file routes also against "
     "their in-memory twin.  Configurations whose radius exceeds 64 triangle widths (90/2^depth deg) are off the "
@@ -260,6 +263,10 @@ def as_variant(vals, variant):
         return b[1::2]
     if variant == "list":
         return a.tolist()
+    if variant == "2d":
+        # the same values as a 2-d array (two rows when the length is even, else one row): the entry points
+        # return 1-d results of arr.size elements, so a multi-dimensional array means its flattened elements
+        return a.reshape(2, -1).copy() if (a.size % 2 == 0 and a.size >= 2) else a.reshape(1, -1).copy()
     if variant == "scalar":
         return float(a[0]) if a.size == 1 else a
     raise ValueError(variant)
@@ -591,6 +598,54 @@ def main(ctx):
                             routes=["HTM.match", "Matcher.match", "Matcher.match(file=)+read_pairs (centre-vs-outside)"],
                             skipped="radius > %g triangle widths" % WIDTHS))
 
+    # ------------------------------------------------------- element sequences
+    # The match loops run over the first-set elements one after the other; anything carried from one
+    # element to the next (a cached triangle list, the previous radius, a reused scratch vector) shows up
+    # only for particular NEIGHBOURS in the input.  All sequences of length <= L over a small alphabet of
+    # (position, radius) symbols, with exact repeats of a position under different radii, are enumerated.
+    SEQ_A = (37.0, 45.0)
+    SEQ_POS = (SEQ_A, SEQ_A, destination(SEQ_A[0], SEQ_A[1], 0.3, 40.0), (217.0, -45.0))   # A, A again, B near A, far C
+    SEQ_RAD = (0.0, 0.1, 1.0)
+    SEQ_SECOND = tuple([SEQ_A] + [destination(SEQ_A[0], SEQ_A[1], sp, b) for sp in (0.05, 0.2, 0.5, 0.9, 1.1, 3.0)
+                                  for b in (10.0, 130.0, 250.0)] + [(217.0, -45.0), (217.05, -45.0)])
+
+    def one_seq(case, rec):
+        seq, depth, mm, use_array = case
+        p1 = tuple(SEQ_POS[k] for k, _ in seq)
+        rvec = np.array([SEQ_RAD[r] for _, r in seq], dtype="f8")
+        if not use_array and len(set(rvec.tolist())) > 1:
+            return
+        T = Truth(p1, SEQ_SECOND, rvec)
+        c1 = (np.array([p[0] for p in p1]), np.array([p[1] for p in p1]))
+        c2 = (np.array([p[0] for p in SEQ_SECOND]), np.array([p[1] for p in SEQ_SECOND]))
+        rad = rvec if use_array else float(rvec[0])
+        n = run_routes(case, rec, T, depth, c1, c2, rad, mm, ("oneshot-mem", "matcher-mem", "matcher-file"))
+        if n is None:
+            return
+        rep = any(seq[i][0] in (0, 1) and seq[i + 1][0] in (0, 1) and seq[i][1] != seq[i + 1][1] for i in range(len(seq) - 1))
+        rec.ok(case, outcome="len%d/%s/%s" % (len(seq), "repeat-with-other-radius" if rep else "plain", mm_class(T, mm)),
+               nontrivial=rep, calls=n)
+
+    SEQ_L = ctx.pick(3, 4)
+    seq_syms = [(k, r) for k in range(len(SEQ_POS)) for r in range(len(SEQ_RAD))]
+    seq_units = [(first, d) for first in seq_syms for d in ctx.pick((4, 10), (2, 4, 7, 10, 13))]
+
+    def expand_seq(u):
+        first, d = u
+        for L in range(1, SEQ_L + 1):
+            for rest in itertools.product(seq_syms, repeat=L - 1):
+                seq = (first,) + rest
+                for mm in (0, 1):
+                    yield (seq, d, mm, True)
+                if L <= 2:
+                    yield (seq, d, 2, True)
+                    yield (seq, d, 0, False)
+
+    ctx.lattice("element-sequences", seq_units, one_seq, expand=expand_seq,
+                bounds=dict(max_len=SEQ_L, positions=["A", "A (exact repeat)", "B 0.3 deg from A", "C far away"],
+                            radii=list(SEQ_RAD), second_set=len(SEQ_SECOND), maxmatch=[0, 1, 2],
+                            routes=["HTM.match", "Matcher.match", "Matcher.match(file=)"]))
+
     # ------------------------------------------------------------------- sets
     def one_set(case, rec):
         g, s1, s2, variant, radspec, depth, mm = case
@@ -628,6 +683,8 @@ def main(ctx):
         ("tail", "even", "negstride"),
         ("seam", "north", "list"),
         ("bases", "sphere", "list"),
+        ("bases", "dests", "2d"),
+        ("odd", "all", "2d"),
         ("sphere", "sphere", "native"),     # quasi-uniform on the sphere, self-match
         ("cap30", "sphere", "native"),
         ("cap1e-4", "cap1e-4", "native"),   # clustered: 48 points within 1e-4 deg of a generic point
